@@ -200,7 +200,7 @@ func checkMergeLimit(p *core.Prog, r *core.Report, rule string) {
 			fl, _ := core.LoadedField(core.SkipConv(v))
 			return fl != nil && fl.Name() == "totalSizeLimit"
 		}
-		core.Instrs(f, func(in ssa.Instruction) {
+		core.InstrsDeep(f, func(in ssa.Instruction) {
 			ifi, ok := in.(*ssa.If)
 			if !ok {
 				return
@@ -342,7 +342,7 @@ func checkSkipFromIndexAbsentOutput(p *core.Prog, r *core.Report, rule string) {
 		core.Undecide("skipFromIndex: no Get call on the block's outputs")
 	}
 	var notFound []core.Edge
-	core.Instrs(fn, func(in ssa.Instruction) {
+	core.InstrsDeep(fn, func(in ssa.Instruction) {
 		ifi, ok := in.(*ssa.If)
 		if !ok {
 			return
@@ -546,7 +546,7 @@ func checkGraphEdgesOnlyForModuleInputs(p *core.Prog, r *core.Report, rule strin
 	// (in NewModuleGraph or in the helper of its family that resolves what an input refers to)
 	var modEdges []core.Edge
 	for _, member := range core.Family(fn, 1) {
-		core.Instrs(member, func(in ssa.Instruction) {
+		core.InstrsDeep(member, func(in ssa.Instruction) {
 			ifi, ok := in.(*ssa.If)
 			if !ok {
 				return
@@ -766,7 +766,7 @@ func checkGateAndUndo(p *core.Prog, r *core.Report, rule string) {
 	r.Touch(core.FuncName(btg))
 	// returns reachable behind `step.Matches(StepUndo)`: none is the constant true
 	var undoEdges []core.Edge
-	core.Instrs(btg, func(in ssa.Instruction) {
+	core.InstrsDeep(btg, func(in ssa.Instruction) {
 		ifi, ok := in.(*ssa.If)
 		if !ok {
 			return
@@ -833,7 +833,7 @@ func checkGateAndUndo(p *core.Prog, r *core.Report, rule string) {
 	r.Touch(core.FuncName(hu))
 	sso := p.FuncObj(pkgPipe, "gate.shouldSendOutputs")
 	var open []core.Edge
-	core.Instrs(hu, func(in ssa.Instruction) {
+	core.InstrsDeep(hu, func(in ssa.Instruction) {
 		ifi, ok := in.(*ssa.If)
 		if !ok {
 			return
